@@ -11,7 +11,9 @@ package counter
 import (
 	"encoding/binary"
 	"fmt"
+	"os"
 	"runtime/debug"
+	"syscall"
 	"sort"
 	"strings"
 	"testing"
@@ -30,8 +32,39 @@ type zzvParseOut struct {
 	noReturn bool
 }
 
-// zzvParse runs the real Parse under a step budget.
+// zzvGuard is a buffer whose last byte is followed by an inaccessible page, so that a read
+// beyond the end of the input faults instead of silently reading a neighbour.
+var zzvGuard struct {
+	region []byte
+	usable int
+}
+
+func zzvGuarded(data []byte) []byte {
+	const usable = 1 << 20
+	if zzvGuard.region == nil {
+		page := os.Getpagesize()
+		r, err := syscall.Mmap(-1, 0, usable+page, syscall.PROT_READ|syscall.PROT_WRITE, syscall.MAP_ANON|syscall.MAP_PRIVATE)
+		if err != nil {
+			return data
+		}
+		if err := syscall.Mprotect(r[usable:], syscall.PROT_NONE); err != nil {
+			return data
+		}
+		zzvGuard.region, zzvGuard.usable = r, usable
+	}
+	if len(data) > zzvGuard.usable {
+		return data
+	}
+	dst := zzvGuard.region[zzvGuard.usable-len(data) : zzvGuard.usable : zzvGuard.usable]
+	copy(dst, data)
+	return dst
+}
+
+// zzvParse runs the real Parse under a step budget, on a copy of the input that ends at a
+// guard page.
 func zzvParse(data []byte) (out zzvParseOut) {
+	data = zzvGuarded(data)
+	debug.SetPanicOnFault(true)
 	vatomic.Budget = zzvParseBudget
 	defer func() {
 		vatomic.Budget = 0
@@ -283,7 +316,11 @@ func TestVerifC06(t *testing.T) {
 				w.Data = append(w.Data, make([]byte, ref.CFPage)...)
 			}
 			actual := w.HdrLen
-			for _, hv := range []uint32{0, 4, 28, 31, 32, 33, actual - 32, actual, actual + 32, 16384, 16385, uint32(len(w.Data)), 0xffffffff} {
+			size := uint32(len(w.Data))
+			// incl. header lengths that put the last bucket head (or the first, for a file one byte
+			// longer than a page) within the last three bytes of the input
+			for _, hv := range []uint32{0, 4, 28, 31, 32, 33, actual - 32, actual, actual + 32, 16384, 16385, size, 0xffffffff,
+				size - 2048 - 3, size - 2048 - 2, size - 2048 - 1, size - 2048, 16380, 16381, 16383, 14333} {
 				for _, lv := range []int64{-1, 0, int64(actual), int64(len(w.Data)) - 32, int64(len(w.Data)), int64(len(w.Data)) + 1, 0xffffffff} {
 					d := w.Bytes()
 					binary.LittleEndian.PutUint32(d[28:], hv)
@@ -291,6 +328,9 @@ func TestVerifC06(t *testing.T) {
 						binary.LittleEndian.PutUint32(d[actual:], uint32(lv))
 					}
 					c.check(fmt.Sprintf("A2:pages=%d records=%d hdrlen=%d limit=%d", pages, len(names), hv, lv), d)
+					for _, extra := range []int{1, 2, 3, 5} {
+						c.check(fmt.Sprintf("A2:pages=%d+%dB records=%d hdrlen=%d limit=%d", pages, extra, len(names), hv, lv), append(append([]byte{}, d...), make([]byte, extra)...))
+					}
 				}
 			}
 		}
